@@ -123,6 +123,17 @@ func (p *PKI) reloadCerts(c *config.C, initial bool) *util.ContextualError {
 	}
 
 	if currentState != nil {
+		// The curve is part of the identity of this node and is shared by every certificate version in use,
+		// so it must survive any combination of certificates being added, replaced or removed.
+		oldCurve, newCurve := currentState.curve(), newState.curve()
+		if oldCurve != newCurve {
+			return util.NewContextualError(
+				"Curve in new cert was different from old",
+				m{"new_curve": newCurve, "old_curve": oldCurve},
+				nil,
+			)
+		}
+
 		if newState.v1Cert != nil {
 			if currentState.v1Cert == nil {
 				//adding certs is fine, actually. Networks-in-common confirmed in newCertState().
@@ -149,6 +160,14 @@ func (p *PKI) reloadCerts(c *config.C, initial bool) *util.ContextualError {
 		if newState.v2Cert != nil {
 			if currentState.v2Cert == nil {
 				//adding certs is fine, actually
+				//...unless the v1 cert goes away in the same reload: then the v2 cert replaces it and must not move us
+				if newState.v1Cert == nil && !slices.Equal(currentState.v1Cert.Networks(), newState.v2Cert.Networks()) {
+					return util.NewContextualError(
+						"Replacing a V1 cert with a V2 cert is not permitted unless it has identical networks",
+						m{"new_v2_networks": newState.v2Cert.Networks(), "old_v1_networks": currentState.v1Cert.Networks()},
+						nil,
+					)
+				}
 			} else {
 				// did IP in cert change? if so, don't set
 				if !slices.Equal(currentState.v2Cert.Networks(), newState.v2Cert.Networks()) {
@@ -225,6 +244,14 @@ func (cs *CertState) GetCredential(v cert.Version) *handshake.Credential {
 		return cs.v2Credential
 	}
 	return nil
+}
+
+// curve returns the curve of the certificates in this state, newCertState guarantees v1 and v2 agree on it.
+func (cs *CertState) curve() cert.Curve {
+	if cs.v2Cert != nil {
+		return cs.v2Cert.Curve()
+	}
+	return cs.v1Cert.Curve()
 }
 
 func (cs *CertState) getCertificate(v cert.Version) cert.Certificate {
